@@ -41,6 +41,14 @@ pub fn urldecode_20_bytes(value: &str) -> anyhow::Result<[u8; 20]> {
                 .next()
                 .with_context(|| "missing second urldecode char in pair")?;
 
+            if first as u32 > 255 || second as u32 > 255 {
+                return Err(anyhow::anyhow!(
+                    "character in urldecode pair not in single byte range: {:#?}{:#?}",
+                    first,
+                    second
+                ));
+            }
+
             let hex = [first as u8, second as u8];
 
             hex::decode_to_slice(hex, &mut out_arr[i..i + 1])
